@@ -101,12 +101,12 @@ CHECKS = {
         note=TB + "merge is covered in C06; np.argsort is an oracle (its output is checked, not modelled).",
         technique="Coq proof of the view model + verified checkers on implementation output + exact content oracle", ref="7 (C08)"),
     "C16": dict(
-        text="Theorems: soundness of mesh equality (as C03), totality of the cell-type pairing (no exception), exact "
-             "characterisation of the compatibility relation. Tied to the code by Mesh.equals vs the model on exact meshes in both "
+        text="Theorems: soundness of mesh equality (as C03), SYMMETRY (mesh_equal A B = mesh_equal B A for all meshes with distinct "
+             "block types), totality of the cell-type pairing (no exception), exact characterisation of the compatibility relation. Tied to the code by Mesh.equals vs the model on exact meshes in both "
              "argument orders (symmetry, no exception, cell-type set variants) and by image/rectilinear/structured equals against "
              "the exact explicit points of the same grids (flat directions, ordinates, origin, spacing). Open finding F-C16c "
              "(ImageMesh parameter-wise comparison) is reported as KNOWN-FINDING.",
-        note=TB + "Symmetry of the model is checked by the differential runs, not yet a theorem; structured point generation is modelled in C07.",
+        note=TB + "Structured `equals` is compared against exact explicit points (differential); structured point generation is modelled in C07.",
         technique="Coq proof of mesh-equality soundness + model/implementation correspondence", ref="7 (C16)"),
     "C17": dict(
         text="Theorems: extension only appends zeros (points, rows), keeps connectivity; rows of different dimension are never "
